@@ -126,6 +126,10 @@ class Body:
         if k == 'Goto':
             return [t['target']]
         if k == 'SwitchInt':
+            kv = self._known_switch(t)
+            if kv is not None:
+                tg = [a[1] for a in t['arms'] if int(a[0]) == kv]
+                return [tg[0] if tg else t['otherwise']]
             out = [a[1] for a in t['arms']]
             out.append(t['otherwise'])
             seen = []
@@ -138,6 +142,61 @@ class Body:
         if k in ('Drop', 'Assert'):
             return [t['target']]
         return []
+
+    # -- infeasible-edge pruning: `Err(e)?` / `Ok(v)?` / matching a freshly built variant.
+    # A SwitchInt on discriminant(L) where L's single definition is an enum aggregate of a
+    # known variant (possibly through Try::branch, which maps Ok->Continue(0), Err->Break(1),
+    # Some->Continue(0), None->Break(1)) has exactly one feasible target.
+    def _single_def(self, l):
+        ds = self.defs().get(l, [])
+        if len(ds) != 1 or (1 <= l <= self.argc):
+            return None
+        return ds[0]
+
+    def _known_variant(self, l, depth=0):
+        """(adt, variant idx) if local l certainly holds that variant"""
+        if depth > 6:
+            return None
+        d = self._single_def(l)
+        if d is None:
+            return None
+        bi, j, x = d
+        if j == 'term':
+            c = x.get('callee') or {}
+            if c.get('trait') == 'std::ops::Try' and c['path'].endswith('::branch') and x['args'] and not x['dest']['p']:
+                a = x['args'][0]
+                if a['k'] in ('Copy', 'Move') and not a['place']['p']:
+                    kv = self._known_variant(a['place']['l'], depth + 1)
+                    if kv and kv[0] in ('std::result::Result', 'std::option::Option'):
+                        name = kv[2]
+                        return ('std::ops::ControlFlow', 0 if name in ('Ok', 'Some') else 1, 'Continue' if name in ('Ok', 'Some') else 'Break')
+            return None
+        if x['place']['p']:
+            return None
+        rv = x['rv']
+        if rv['k'] == 'Aggregate' and rv['agg'] == 'Adt':
+            return (rv['adt'], rv['vidx'], rv['variant'])
+        if rv['k'] == 'Use' and rv['op']['k'] in ('Copy', 'Move') and not rv['op']['place']['p']:
+            return self._known_variant(rv['op']['place']['l'], depth + 1)
+        return None
+
+    def _known_switch(self, t):
+        l = op_local(t['discr'])
+        if l is None:
+            return None
+        d = self._single_def(l)
+        if d is None or d[1] == 'term' or d[2]['place']['p']:
+            return None
+        rv = d[2]['rv']
+        if rv['k'] != 'Discriminant' or rv['place']['p']:
+            return None
+        kv = self._known_variant(rv['place']['l'])
+        if kv is None:
+            return None
+        # discriminant value == variant index for the fieldless-discriminant enums involved here
+        if kv[0] in ('std::ops::ControlFlow', 'std::result::Result', 'std::option::Option'):
+            return kv[1]
+        return None
 
     def pred(self, b):
         if self._pred is None:
@@ -474,6 +533,8 @@ TRANSPARENT = {
     'std::string::ToString::to_string': 0,
     'std::option::Option::unwrap': 0, 'std::option::Option::expect': 0,
     'std::result::Result::unwrap': 0, 'std::result::Result::expect': 0,
+    'std::option::Option::ok_or': 0, 'std::option::Option::ok_or_else': 0,
+    'std::result::Result::map_err': 0, 'std::result::Result::ok': 0,
 }
 PAYLOAD_VARIANTS = ('Some', 'Ok', 'Continue')
 BOX_INTERNALS = ('std::boxed::Box', 'std::ptr::Unique', 'std::ptr::NonNull')
